@@ -838,7 +838,7 @@ Proof.
     destruct (i_payload (st_inst a)) as [ta|] eqn:Pa; destruct (i_payload (st_inst b)) as [tb|] eqn:Pb.
     + apply app_eq_len_tail in Ex as [Ew Ep]; [|reflexivity]. rewrite (FW Ew). simpl.
       injection Ep as Ep. unfold digest in Ep. apply Hinj in Ep. rewrite !cat_single in Ep.
-      apply tpl_text_inj in Ep; [| eapply wf_inst_payload; eauto | eapply wf_inst_payload; eauto].
+      apply tpl_text_inj in Ep; [| exact (wf_inst_payload _ _ Wa Pa) | exact (wf_inst_payload _ _ Wb Pb)].
       subst tb. apply tpl_eqb_refl.
     + apply (f_equal (@length fld)) in Ex. discriminate Ex.
     + apply (f_equal (@length fld)) in Ex. discriminate Ex.
@@ -952,7 +952,7 @@ Proof. intros H w h Hi W G4 G7. apply cache_transparent; auto. Qed.
 (* ------------------------------------------------------------------ the hypotheses are satisfiable *)
 
 (** the structural over-approximation of the guard of C11-F4 (computable without knowing SHA-256) *)
-Definition p_F4_shift (fx : fixes) (H : string -> string) (a b : step) : bool :=
+Definition p_F4k_shift (fx : fixes) (H : string -> string) (a b : step) : bool :=
   both (fun s => enabled (st_inst s)) a b &&
   (guard_shift (opt_fields fx H a) (opt_fields fx H b) ||
    (negb (ep_eqb (eff_ep (st_inst a)) (eff_ep (st_inst b))) &&
@@ -962,14 +962,23 @@ Definition p_F4_shift (fx : fixes) (H : string -> string) (a b : step) : bool :=
 Lemma collide_le_shift a b : collide a b = true -> guard_shift a b = true.
 Proof. apply collide_needs_shift. Qed.
 
-Lemma p_F4_in_shift fx H a b : p_F4 fx H a b = true -> p_F4_shift fx H a b = true.
+Lemma p_F4k_in_shift fx H a b : p_F4k fx H a b = true -> p_F4k_shift fx H a b = true.
 Proof.
-  unfold p_F4, p_F4_shift. intro P. apply andb_true_iff in P as [B P]. rewrite B. simpl.
+  unfold p_F4k, p_F4k_shift. intro P. apply andb_true_iff in P as [B P]. rewrite B. simpl.
   apply orb_true_iff in P as [P|P].
   - now rewrite (collide_le_shift _ _ P).
   - apply andb_true_iff in P as [N P]. rewrite N. simpl. apply orb_true_iff in P as [P|P].
     + rewrite (collide_le_shift _ _ P). now rewrite ?orb_true_r.
     + rewrite P. now rewrite ?orb_true_r.
+Qed.
+
+Definition p_F4_shift (fx : fixes) (H : string -> string) (a b : step) : bool := p_F4k_shift fx H a b || p_F4_fwd fx a b.
+
+Lemma p_F4_in_shift fx H a b : p_F4 fx H a b = true -> p_F4_shift fx H a b = true.
+Proof.
+  unfold p_F4, p_F4_shift. intro P. apply orb_true_iff in P as [P|P].
+  - now rewrite (p_F4k_in_shift _ _ _ _ P).
+  - rewrite P. now rewrite orb_true_r.
 Qed.
 
 Lemma exists_pair_mono {A} (f g : A -> A -> bool) :
@@ -1025,7 +1034,7 @@ Proof.
     splits; [apply (exists_pair_mono _ p_F2) | apply (exists_pair_mono _ p_F3) | apply (exists_pair_mono _ p_F10)
             | apply (exists_pair_mono _ p_F6) | apply (exists_pair_mono _ p_F7)]; try apply KL; reflexivity.
   - intros fx H L. unfold g_F4. apply (exists_pair_mono _ (p_F4_shift fx H)); [apply p_F4_in_shift|].
-    destruct fx as [[] f2 f3 f10]; cbv -[String.length Nat.eqb Nat.leb negb orb andb]; rewrite !L; reflexivity.
+    destruct fx as [[] f2 f3 f10 []]; cbv -[String.length Nat.eqb Nat.leb negb orb andb]; rewrite !L; reflexivity.
   - do 2 eexists. splits; try reflexivity. eexists. reflexivity.
 Qed.
 
@@ -1123,7 +1132,7 @@ Proof.
     splits; [apply (exists_pair_mono _ p_F2) | apply (exists_pair_mono _ p_F3) | apply (exists_pair_mono _ p_F10)
             | apply (exists_pair_mono _ p_F6) | apply (exists_pair_mono _ p_F7)]; try apply KL; reflexivity.
   - intros fx H I L. unfold g_F4. apply exists_pair_intro_false. intros a b Ia Ib.
-    destruct fx as [f1 f2 f3 f10].
+    destruct fx as [f1 f2 f3 f10 f6].
     repeat (destruct Ia as [<-|Ia]; [repeat (destruct Ib as [<-|Ib]; [
       first [ apply p_F4_false_cross; [exact I|exact L|destruct f1; reflexivity|reflexivity|eexists; reflexivity|eexists; reflexivity]
             | eapply p_F4_false_same_ep; [reflexivity|reflexivity|destruct f1; lazy; reflexivity|reflexivity]
